@@ -1,4 +1,5 @@
 mod buildsim;
+mod cligen;
 mod clock;
 mod concsim;
 mod dicfmt;
@@ -8,6 +9,7 @@ mod editsim;
 mod harness;
 mod mirigen;
 mod proj;
+mod pygen;
 mod rng;
 mod roundtrip;
 mod simdict;
@@ -50,6 +52,36 @@ fn main() {
                 println!("  {:?}", m.surface());
             }
             0
+        }
+        "pygen" => {
+            let out = opts.extra.get("out").cloned().unwrap_or_else(|| "/verif/work/py".to_string());
+            let only = opts.extra.get("only").and_then(|s| s.parse::<usize>().ok());
+            let runs = only.map(|o| o + 1).unwrap_or(opts.runs as usize);
+            match pygen::generate(opts.seed, runs, std::path::Path::new(&out), only) {
+                Ok(n) => {
+                    println!("pygen: {} scripts, {} ops -> {}", opts.runs, n, out);
+                    0
+                }
+                Err(e) => {
+                    eprintln!("HARNESS-ERROR: pygen: {}", e);
+                    2
+                }
+            }
+        }
+        "cligen" => {
+            let out = opts.extra.get("out").cloned().unwrap_or_else(|| "/verif/work/cli".to_string());
+            let only = opts.extra.get("only").and_then(|s| s.parse::<usize>().ok());
+            let runs = only.map(|o| o + 1).unwrap_or(opts.runs as usize);
+            match cligen::generate(opts.seed, runs, std::path::Path::new(&out), only) {
+                Ok(n) => {
+                    println!("cligen: {} cases -> {}", n, out);
+                    0
+                }
+                Err(e) => {
+                    eprintln!("HARNESS-ERROR: cligen: {}", e);
+                    2
+                }
+            }
         }
         "mirigen" => {
             let out = opts.extra.get("out").cloned().unwrap_or_else(|| "/verif/work/miri".to_string());
